@@ -684,10 +684,28 @@ def _r11g(rep, tu, P):
         rep.instance("R11g", CF, "get_integration_weight", f"case {k}: C {sorted(cc[0])} k={cc[1]} / Py {sorted(pc[0])} k={pc[1]}", ok,
                      "the C and Python case splits on omega differ, or case k does not accumulate IJ(k, position of the central vertex) * gn(k)", line=tu.line(fn))
     # both divide by 6 and select (g, I) for 'I' and (n, J) otherwise
+    def one_sixth(texts, acc_names):
+        """every returned expression is (the accumulator) / 6, in whatever arithmetic form"""
+        if not texts:
+            return False
+        for t in texts:
+            try:
+                e = symalg.open_expr(t)
+            except AnalysisError:
+                return False
+            accs = [x for x in e.free_symbols if str(x) in acc_names]
+            if len(accs) != 1:
+                return False
+            r = sp.simplify(e / accs[0])
+            if r.free_symbols or abs(float(r) - 1.0 / 6) > 1e-15:
+                return False
+        return True
+
     rets = [cast.text(cast.kids(x)[0]) for x in cast.walk(fn) if x.get("kind") == "ReturnStmt"]
-    rep.instance("R11g", CF, "get_integration_weight", str(rets), rets == ["sum / 6"], "C sum is not divided by 6", line=tu.line(fn))
+    rep.instance("R11g", CF, "get_integration_weight", str(rets), one_sixth(rets, {"sum"}), "C sum over the 24 tetrahedra is not divided by 6", line=tu.line(fn))
     prets = [core.src(n.value) for n in ast.walk(pf) if isinstance(n, ast.Return)]
-    rep.instance("R11g", PY, f"{CLS}._get_integration_weight_py", str(prets), prets == ["sum_value / 6"], "Python sum is not divided by 6", line=pf.lineno)
+    py_acc = {core.src(a.target) for a in ast.walk(pf) if isinstance(a, ast.AugAssign) and isinstance(a.target, ast.Name)}
+    rep.instance("R11g", PY, f"{CLS}._get_integration_weight_py", str(prets), one_sixth(prets, py_acc), "Python sum over the 24 tetrahedra is not divided by 6", line=pf.lineno)
     sel = tu.functions.get("thm_get_integration_weight")
     calls = [cast.text(cast.kids(x)[0]) for x in cast.walk(sel) if x.get("kind") == "ReturnStmt"]
     conds = [cast.text(cast.kids(x)[0]) for x in cast.walk(sel) if x.get("kind") == "IfStmt"]
